@@ -3,6 +3,7 @@ package xmlparse
 import (
 	"encoding/xml"
 	"github.com/modernizing/coca/pkg/infrastructure/container"
+	"golang.org/x/net/html/charset"
 	"io"
 	"strings"
 )
@@ -28,6 +29,9 @@ type element struct {
 
 func ParseXML(r io.Reader) *XMLNode {
 	parser := xml.NewDecoder(r)
+	// poms declare encodings other than UTF-8 (ISO-8859-1 is common); without a charset
+	// reader the decoder fails on the XML declaration and the document reads as empty
+	parser.CharsetReader = charset.NewReaderLabel
 	var root XMLNode
 
 	st := container.NewStack()
